@@ -84,7 +84,7 @@ pub fn run_enum(world: &dyn World, prop: &'static str, cfg: &Cfg, params: &EnumP
                     world.run(cfg, &ops, &mut run);
                     ls.account(world, prop, cfg, &ops, &run);
                     let (stop, failure) = match &run.violation {
-                        Some(v) if v.prop == prop => (true, Some(v.clone())),
+                        Some(v) if v.is(prop) => (true, Some(v.clone())),
                         Some(_) => (true, None),
                         None => (false, None),
                     };
